@@ -33,6 +33,9 @@ type Case struct {
 	// Live: (pipe only) stdin stays open; after each chunk the harness waits until those bytes have
 	// come out on stdout and reached the record file before it sends the next chunk.
 	Live bool `json:"live"`
+	// RecordFull: the day's record file is a symbolic link to /dev/full, so every record write fails
+	// (a full filestore).  The pass-through must be unaffected; the record is not compared.
+	RecordFull bool `json:"record_filestore_full"`
 }
 
 type lockedBuf struct {
@@ -106,6 +109,13 @@ func check(c Case, o *stats.Obs) error {
 		c.LogEvents, logDir, filepath.Join(dir, "old"), filepath.Join(dir, "events"))
 	cfgPath := filepath.Join(dir, "config.json")
 	os.WriteFile(cfgPath, []byte(cfg), 0o644)
+	if c.RecordFull {
+		os.MkdirAll(logDir, 0o755)
+		now := time.Now()
+		for _, d := range []time.Time{now, now.Add(24 * time.Hour)} { // today's name (and tomorrow's, should midnight pass)
+			os.Symlink("/dev/full", filepath.Join(logDir, fmt.Sprintf("rtcmlogger.%04d-%02d-%02d.rtcm", d.Year(), int(d.Month()), d.Day())))
+		}
+	}
 	cmd := exec.Command(bin, "-c", cfgPath)
 	cmd.Dir = dir
 	cmd.Env = append(os.Environ(), fmt.Sprintf("GOMAXPROCS=%d", c.Procs))
@@ -144,7 +154,7 @@ func check(c Case, o *stats.Obs) error {
 						}
 						break
 					}
-					if !appsup.WaitFor(5*time.Second, func() bool { return len(appsup.ReadLogs(logDir, "rtcmlogger.", ".rtcm")) >= sent }) {
+					if !c.RecordFull && !appsup.WaitFor(5*time.Second, func() bool { return len(appsup.ReadLogs(logDir, "rtcmlogger.", ".rtcm")) >= sent }) {
 						select {
 						case withheld <- fmt.Sprintf("%d bytes were sent on stdin (stdin still open) but the record file holds only %d after 5 s", sent, len(appsup.ReadLogs(logDir, "rtcmlogger.", ".rtcm"))):
 						default:
@@ -201,6 +211,11 @@ func check(c Case, o *stats.Obs) error {
 		o.Key = "stdout"
 		return fmt.Errorf("standard output differs from standard input: %s (len %d, content kind %d, pipe=%v, chunks %v)", appsup.Diff(stdout.Bytes(), input), c.Len, c.Content, c.Pipe, c.Chunks)
 	}
+	if c.RecordFull {
+		o.NonTrivial = len(input) > 0
+		o.Class("record-filestore-full")
+		return nil
+	}
 	rec := appsup.ReadLogs(logDir, "rtcmlogger.", ".rtcm")
 	if !bytes.Equal(rec, input) {
 		o.Key = "record-file"
@@ -253,6 +268,7 @@ func gen1(t *rapid.T) Case {
 	c.Procs = rapid.SampledFrom([]int{1, 2, 4, 16}).Draw(t, "procs")
 	c.LogEvents = rapid.IntRange(0, 3).Draw(t, "logEvents") == 0
 	c.YieldSeed = rapid.IntRange(0, 1<<20).Draw(t, "yieldSeed")
+	c.RecordFull = rapid.IntRange(0, 9).Draw(t, "recordFull") == 5
 	return c
 }
 
